@@ -144,6 +144,14 @@ TEMPLATES = {
                    '--geo-translate=%s,%s,%s,%s,3' % (N(v['k1']), N(v['tx']), N(v['ty']), N(v['tz'])),
                    '--geo-scale=%s' % N(v['sc']), '--geo-scale=%s,2' % N(v['sc'])], False,
         lambda c, v: []),
+    # two rotations of one object with the SAME sort key about different axes (applied in the order given; rotations do not commute),
+    # followed by a translation with that key as well
+    'equal-key-rotations': (
+        dict(f=('r', 1, 100), rx=('r', 10, 180), rz=('r', 10, 180), k=('r', 0, 5), tx=('r', -30, 30)),
+        lambda v: ['-f', N(v['f']), '-w', W1, '-w', W2, '--excitation-pulse=2',
+                   '--geo-rotate=%s,%s,0,0,2' % (N(v['k']), N(v['rx'])), '--geo-rotate=%s,0,0,%s,2' % (N(v['k']), N(v['rz'])),
+                   '--geo-translate=%s,%s,0,0,2' % (N(v['k']), N(v['tx']))], False,
+        lambda c, v: []),
 }
 
 
@@ -249,7 +257,7 @@ def roundtrip(ck, sh, mm, tname):
         old = (M.taper1, M.taper2)
         M.taper1 = M.taper2 = _equal_pieces      # segmentation itself is C13's subject
         saved = []
-        if tname == 'transforms':
+        if tname in ('transforms', 'equal-key-rotations'):
             # the geometric effect of transformations is C13/C05; here the RECORDS must round-trip
             for cls in (M.Wire, M.Curve):
                 for meth in ('rotate', 'translate', 'scale'):
@@ -349,7 +357,7 @@ def main(args):
     ck = Check('C15', args)
     ck.shadow_stats = symx.load().stats
     names = list(TEMPLATES) if ck.tier == 'thorough' else ['source-1V-neighbour', 'tags+taper+bygeo', 'skin-per-tag', 'rlc+trap+laplace',
-                                                         'media', 'media3', 'transforms', 'mixed-loads-out-of-order', 'repeated-attachment', 'scaled-objects']
+                                                         'media', 'media3', 'transforms', 'mixed-loads-out-of-order', 'repeated-attachment', 'scaled-objects', 'equal-key-rotations']
     run_parallel(ck, 'checks.c15', [('roundtrip', (n,)) for n in names])
     ck.assumptions += ['argument lists are built from the listed templates; every numeric field of a template is an arbitrary value in '
                        'its stated range; geometry coordinates are concrete',
